@@ -1393,6 +1393,7 @@ func (it *Interp) setupIntrinsics() {
 	T["(*compress/gzip.Reader).Close"] = func(it *Interp, fn *ssa.Function, a []Value) Value { return Iface{} }
 
 	it.setupCodecIntrinsics()
+	it.setupReflIntrinsics()
 }
 
 // concretizeFloat forks over the feasible values of a float term (intended for terms that take few values).
